@@ -32,6 +32,9 @@ PLANS = {
         (3, 2, 2, "m2", "m2", "two", "probe", "probe", "some", "all", 12),
         (3, 3, 2, "m2", "m1", "two", "probe0", "probe0", "some", "some", 12),
         (3, 3, 3, "m2", "m2", "two", "probe", "probe0", "some", "some", 12),
+        # four-index operands: two free and two contracted legs (the contracted group is not the leading fuse group)
+        (4, 2, 2, "m1", "m1", "two", "probe", "probe0", "all", "some", 4),
+        (4, 3, 2, "m1", "m1", "two", "probe", "probe0", "some", "some", 8),
     ],
 }
 PLANS["thorough"] = PLANS["quick"] + [
@@ -40,13 +43,15 @@ PLANS["thorough"] = PLANS["quick"] + [
     (3, 2, 2, "m3", "m3", "two", "le1", "probe", "all", "all", 64),
     (3, 3, 2, "m3", "m2", "two", "probe", "probe", "some", "some", 64),
     (3, 3, 3, "m3", "m3", "all", "probe", "probe", "some", "all", 64),
+    (4, 2, 2, "m1", "m1", "two", "le1", "le1", "all", "all", 32),
+    (4, 3, 2, "m2", "m1", "two", "le1", "probe", "some", "some", 64),
 ]
 
 META = {
     "rule": "pairs (a, b, axes) with >=1 contracted pair from the C02/C03 universe (independent sparsity and block order on the two operands, every axis placement), abelian and "
     "fermionic (even / odd with labels, pending signs); per pair: 3 direct modes, align+fuse+contract with fuse strategies insert/concat x 2 modes, free legs fused beforehand x 2 modes. "
     "non-trivial = the operands' stored contracted sub-sectors differ (alignment drops something) or >=2 contracted axes",
-    "bounds": {"quick": "PLANS['quick'] (<=3 indices per operand)", "thorough": "PLANS['thorough']"},
+    "bounds": {"quick": "PLANS['quick'] (<=3 indices per operand; 4-index first operands with 2 free + 2 contracted legs over the pair menu)", "thorough": "PLANS['thorough']"},
     "assumptions": [
         "exact integer tags; values compared through the harness embedding into the operands' tables (fermionic: pending signs applied by the harness)",
         "fusing free legs before / after the contraction is compared after unfusing, because the fused tables legitimately hold different sub-sectors when present sectors differ",
